@@ -1020,6 +1020,44 @@ def ro_session(ck, spec):
     return viol, line, exp, mode, calls
 
 
+# ---------------------------------------------------------------- read-only open with a missing blob directory
+def ro_missing_blob_dir(ck):
+    """read_only=True with a blob_dir that does not exist (or lacks tmp/.layout), through the constructor and
+    through ZODB.config: the open must not create anything.  Returns [(sig, what, case)]"""
+    from ZODB.FileStorage import FileStorage
+    import ZODB.config
+    out = []
+    for way in ('constructor', 'config'):
+        root = os.path.join(ck.tmp, 'roblob-' + way)
+        if os.path.exists(root):
+            shutil.rmtree(root)
+        hist = L.gen_history(__import__('random').Random(7), 'small', ntx=2)
+        L.run_history(hist, root)
+        path, bd = os.path.join(root, 'Data.fs'), os.path.join(root, 'blobs')
+
+        def tree():
+            return sorted(os.path.relpath(os.path.join(dp, x), root) for dp, dn, fn in os.walk(root) for x in dn + fn)
+        before, snap = tree(), vfs.snapshot(root)
+        try:
+            if way == 'constructor':
+                ro = FileStorage(path, read_only=True, blob_dir=bd)
+            else:
+                ro = ZODB.config.storageFromString('<filestorage>\n path %s\n read-only true\n blob-dir %s\n'
+                                                   '</filestorage>\n' % (path, bd))
+            ro.close()
+        except Exception as e:
+            out.append(('C09:ro-open-raised', 'read-only open with a missing blob directory (%s) raised %s' % (way, L.ename(e)),
+                        dict(ro_blob=way, calls=[])))
+        ck.case(['ro-missing-blob-dir', way], True, None)
+        created = [x for x in tree() if x not in before]
+        changed = sorted(k for k in set(snap) & set(vfs.snapshot(root)) if snap[k] != vfs.snapshot(root)[k])
+        if created or changed:
+            out.append(('C09:ro-open-creates-blob-dir', 'a read-only open (%s) with a blob directory that does not exist '
+                        'created %s%s' % (way, created, ' and changed %s' % changed if changed else ''),
+                        dict(ro_blob=way, calls=[])))
+    return out
+
+
 # ---------------------------------------------------------------- a second writable open while a writer is active
 def refused_second_writer(ck, rng, idx):
     """a writer is inside a transaction whose records exceed the staging file's buffer; another attempt to open
@@ -1151,6 +1189,15 @@ def main(argv=None):
             ck.violation(sig, what, case)
         expectations.append((res['name'], res['hist'], len(all_lines), res['checks']))
         all_lines += res['lines']
+    if ck.replay_path is None or (ro_specs and ro_specs[0].get('ro_blob')):
+        try:
+            for sig, what, case in ro_missing_blob_dir(ck):
+                ck.violation(sig, what, case)
+        except Exception as e:
+            ck.violation('C09:ro-session-raised', 'the missing-blob-directory probe raised %s: %s'
+                         % (type(e).__name__, str(e)[:160]), dict(ro_blob='probe', calls=[]))
+        if ck.replay_path is not None:
+            ro_specs = []
     # ---- a refused second writer modifies nothing
     nsw = 0
     if ck.replay_path is None:
